@@ -31,6 +31,39 @@ def gen_program(rng, nsetup):
     return progs
 
 
+def with_other(rng, progs):
+    """dispatcher variant: some threads also add listeners for fresh events (the map grows while others look event 1 up)"""
+    out = []
+    for p in progs:
+        q = []
+        for c in p:
+            if rng.random() < 0.3:
+                q.append(["other"])
+            q.append(c)
+        out.append(q)
+    return out
+
+
+def map_protocol(di, progs):
+    """dispatcher variant: every call takes the dispatcher's listenerMutex exactly once"""
+    cur = {}
+    count = {}
+    for t in di["log"]:
+        if t[0] == "note" and t[2] == "begin":
+            cur[int(t[1])] = int(t[3])
+            count[(int(t[1]), int(t[3]))] = 0
+        elif t[0] == "note" and t[2] == "end":
+            cur[int(t[1])] = -1
+        elif t[0] == "step" and t[2] == "map" and cur.get(int(t[1]), -1) >= 0:
+            k = (int(t[1]), cur[int(t[1])])
+            count[k] = count.get(k, 0) + 1
+    for (t, k), n in sorted(count.items()):
+        if n != 1:
+            call = progs[t][k] if t < len(progs) and 0 <= k < len(progs[t]) else ["?"]
+            return "call %d of thread %d (%s) took the dispatcher's listenerMutex %d times (expected exactly once)" % (k, t, " ".join(call), n)
+    return None
+
+
 def run_text(name, seed, nsetup, progs):
     return "--- %s\nseed %d\nsetup %s\n" % (name, seed, " ".join(["a"] * nsetup)) + \
         "".join("thread %s\n" % " ; ".join(" ".join(c) for c in p) for p in progs)
